@@ -17,6 +17,8 @@ MASKS = ('none', 'one', 'column', 'near')
 COMMENTS = (('PI_CONTACT_INFO', 'someone@example.org'), ('DATA_INFO', 'ratio 1:2 in ppbv'),
             ('REVISION', 'R0'),
             ('OTHER_COMMENTS', 'a long free-text comment ' + 'x' * 130 + ' end'))
+LODS = ('N/A', '0.5', 'per-variable', 'varies; see UNCERTAINTY', 'see the PI')
+F4CODES = (-999.99, -9999.9, -99999.5, -8888.)
 NAMES = ('O3_ppbv', 'NO2_ppbv', 'CO')
 UNITS = ('ppbv', 'ppbv', 'ppmv')
 
@@ -91,6 +93,17 @@ class Prop(core.Prop):
             yield dict(group, miss=0, mask=mk, comments=0, indep_units=True, source='built', scale_attr=True)
             yield dict(group, miss=0, mask=mk, comments=15, indep_units=True, source='built', scale_attr=True,
                        percode=True)
+        # detection-limit comments (LLOD_/ULOD_FLAG and _VALUE): 'N/A', one number, one value per dependent
+        # variable, free text whose token count matches nothing
+        for li, lod in enumerate(LODS):
+            for which in ('LLOD', 'ULOD', 'both'):
+                for src in ('built', 'text'):
+                    yield dict(group, miss=0, mask='one', comments=0, indep_units=True, source=src, lod=li, lodwhich=which)
+        # 32-bit dependent variables whose missing code has no exact 32-bit representation
+        for mk in MASKS:
+            for code in range(len(F4CODES)):
+                yield dict(group, miss=0, mask=mk, comments=0, indep_units=True, source='built', f4code=code)
+                yield dict(group, miss=0, mask=mk, comments=0, indep_units=True, source='built-values', f4code=code)
         # whole seconds stored in an integer-typed independent variable next to float dependents
         for mk in MASKS:
             for mi in (0, 2):
@@ -98,6 +111,8 @@ class Prop(core.Prop):
 
     def misses(self, case):
         miss = MISS[case['miss']]
+        if 'f4code' in case:
+            return [F4CODES[case['f4code']]] * case['ndep']
         if case.get('percode'):
             return [miss, -7777., -88888.][:case['ndep']]
         return [miss] * case['ndep']
@@ -131,6 +146,12 @@ class Prop(core.Prop):
         misses = self.misses(case)
         nrec, ndep = t.shape
         comments = [COMMENTS[i] for i in range(4) if case['comments'] >> i & 1]
+        if 'lod' in case:
+            val = LODS[case['lod']]
+            if val == 'per-variable':
+                val = ', '.join('%g' % (0.25 * (j + 1)) for j in range(ndep))
+            for w in (('LLOD', 'ULOD') if case['lodwhich'] == 'both' else (case['lodwhich'],)):
+                comments += [(w + '_FLAG', '-8888' if w == 'LLOD' else '-7777'), (w + '_VALUE', val)]
         time = np.arange(nrec, dtype='d') * 60. + 36000.
         if case['source'] == 'text':
             rows = []
@@ -159,6 +180,7 @@ class Prop(core.Prop):
             tv = f.createVariable('Start_UTC', 'i' if case.get('time_int') else 'd', ('POINTS',), missing_value=miss,
                                   units='seconds' if case['indep_units'] else 'Start_UTC')
             tv[:] = time
+        dt = 'f' if 'f4code' in case else 'd'
         if case['source'] != 'built-depfirst':
             indep()
         for j in range(ndep):
@@ -166,14 +188,14 @@ class Prop(core.Prop):
                 indep()
             if case['source'] == 'built-values':
                 # data handed over as a masked array: the array keeps numpy's own fill value next to missing_value
-                v = f.createVariable(NAMES[j], 'd', ('POINTS',), missing_value=misses[j], units=UNITS[j],
-                                     values=np.ma.MaskedArray(t[:, j].copy(), mask=m[:, j].copy()))
+                v = f.createVariable(NAMES[j], dt, ('POINTS',), missing_value=misses[j], units=UNITS[j],
+                                     values=np.ma.MaskedArray(t[:, j].astype(dt), mask=m[:, j].copy()))
                 continue
             if case['source'] == 'built-fillvalue':
                 # masked variable that carries its missing code only as the fill value
-                v = f.createVariable(NAMES[j], 'd', ('POINTS',), fill_value=misses[j], units=UNITS[j])
+                v = f.createVariable(NAMES[j], dt, ('POINTS',), fill_value=misses[j], units=UNITS[j])
             else:
-                v = f.createVariable(NAMES[j], 'd', ('POINTS',), missing_value=misses[j], units=UNITS[j])
+                v = f.createVariable(NAMES[j], dt, ('POINTS',), missing_value=misses[j], units=UNITS[j])
             v[:] = np.ma.MaskedArray(t[:, j], mask=m[:, j])
             if case.get('scale_attr'):
                 v.scale = (0.001, 1000., 2.5)[j]
@@ -220,7 +242,8 @@ class Prop(core.Prop):
         sig = ('ffi1001', case['source'])
         scope = dict(source=case['source'], mask=case['mask'], nrec=case['nrec'], ndep=ndep,
                      indep_units=case['indep_units'], ncomments=bin(case['comments']).count('1'), miss=miss,
-                     percode=bool(case.get('percode')), scale_attr=bool(case.get('scale_attr')))
+                     percode=bool(case.get('percode')), scale_attr=bool(case.get('scale_attr')),
+                     lod=LODS[case['lod']] if 'lod' in case else '', f4=bool('f4code' in case))
         vs = []
         ntrans = 0
         try:
